@@ -234,6 +234,13 @@ def m_kwargs(x, ref: RefResult, spec: dict, rid: int = 0, inputs: t.Optional[dic
         if not (exp_keys <= keys and keys <= exp_keys | allowed_extra):
             out.append(('wrong-kwarg-keys', f'{n}#{i} received keys {sorted(keys)}, declared {sorted(exp_keys)}'))
         ri = refinv.get((n, i))
+        if ri is not None and 'value' in ref.silent:
+            # which iteration's value an outside reader sees is not fixed by the documentation, but a None placeholder for an
+            # invalidated result is never acceptable (C03)
+            nk = norm(kw)
+            for k_, v_ in nk.items():
+                if v_ is None and ri.kwargs.get(k_) is not None:
+                    out.append(('none-as-kwarg', f'{n}#{i} received {k_}=None (placeholder for an invalidated result); reference {ri.kwargs!r}'))
         if ri is not None and 'value' not in ref.silent:
             if norm(kw) != ri.kwargs and not any(contains_bad(v) for v in kw.values()):
                 nk = norm(kw)
